@@ -2,14 +2,6 @@ import Emmet.Math
 /-! C19 core on the REAL math model with the repaired ordering ("a prefix operator never pops"). -/
 namespace M
 
-/-- repaired `order_tokens` loop (no parity counter): tokens, operators (top first), operands (reversed) -/
-def orderLoopF : List Token → List Token → List Token → List Token × List Token
-  | [], ops, operands => (ops, operands)
-  | t :: ts, ops, operands =>
-    if t.type == .num then orderLoopF ts ops (t :: operands)
-    else if t.type == .op1 then orderLoopF ts (t :: ops) operands
-    else orderLoopF ts (t :: (popWhile t ops operands).1) (popWhile t ops operands).2
-
 theorem orderLoopF_append (a b ops operands) :
     orderLoopF (a ++ b) ops operands = orderLoopF b (orderLoopF a ops operands).1 (orderLoopF a ops operands).2 := by
   induction a generalizing ops operands with
@@ -40,7 +32,7 @@ def step1 (t : Token) (st : List Q) : Except MErr (List Q) :=
     match st with
     | n1 :: rest => .ok (n1.neg :: rest)
     | [] => .error (.internal "IndexError")
-  | .null => .error (.internal "Exception")
+  | .null => .error .mathNoPos
 
 theorem evalLoop_cons (t : Token) (ts : List Token) (st : List Q) :
     evalLoop (t :: ts) st = (step1 t st) >>= evalLoop ts := by
@@ -266,10 +258,6 @@ theorem popWhile_fst_nil (t : Token) (ops operands : List Token) (h : (popWhile 
     split
     · rename_i hc; rw [if_pos hc] at h; rw [ih _ h]; simp
     · rename_i hc; rw [if_neg hc] at h; simp at h
-
-/-- repaired `order_tokens` -/
-def orderF (tokens : List Token) : List Token :=
-  (orderLoopF tokens [] []).2.reverse ++ (orderLoopF tokens [] []).1
 
 /-- **C19 core on the real model**: for every well-grouped expression tree, ordering its tokens and
     running the RPN evaluator yields exactly the value of the tree (or its ZeroDivisionError). -/
